@@ -170,7 +170,12 @@ def merge_stats(stats):
 
 
 # --------------------------------------------------------------------------------------------- replay + minimise
-def run_replay(binary, mode, plan_obj, tmpdir, resched=None, timeout=60):
+WATCHDOG_S = int(os.environ.get('VERIF_WATCHDOG_S', '20') or 20)
+
+
+def run_replay(binary, mode, plan_obj, tmpdir, resched=None, timeout=None):
+    if timeout is None:
+        timeout = WATCHDOG_S + 10
     path = os.path.join(tmpdir, 'cand-%d.json' % os.getpid())
     with open(path, 'w') as f:
         json.dump({'mode': mode, 'plan': plan_obj}, f)
@@ -376,10 +381,16 @@ def check(pid, tier):
     reported = []
 
     # crashes become violations once replayed in a fresh process
+    crash_replays = {}
     for c in all_crashes:
         st = prop['stages'][c['_stage']]
         binary = os.path.join(od, st['bin'])
         idx = int(c.get('i', -1))
+        # a hang costs a watchdog period per replay: two confirmed representatives per stage and crash kind are enough
+        ck = (c['_stage'], c.get('kind', 'crash'), c.get('sig', 0))
+        crash_replays[ck] = crash_replays.get(ck, 0) + 1
+        if c.get('kind') == 'hang' and crash_replays[ck] > 2 and idx >= 0:
+            continue
         if idx < 0:
             errors.append('crash outside a run: ' + c.get('stderr', '')[-500:])
             continue
